@@ -346,12 +346,81 @@ def opacity_docs():
     return docs
 
 
+def width_docs():
+    """stroke-width at and next to zero and at extreme sizes, from every kind of source, under transforms of
+    determinant 1, 6 and 1/4 (the reified width is the declared one times sqrt|det|; zero stays zero, never 'unset')"""
+    docs = []
+    for v in ("0", "0.0", "0px", "-0", "1e-9", "0.5", "1e6", "2.5e-7"):
+        for tf in ("", ' transform="scale(2,3)"', ' transform="matrix(0.5,0,0,0.5,7,7)"'):
+            for where in ("attr", "inline", "rule-id", "rule-class", "parent-attr", "parent-inline"):
+                style, gat, lat = "", "", ""
+                if where == "attr":
+                    lat = ' stroke-width="%s"' % v
+                elif where == "inline":
+                    lat = ' style="stroke-width:%s"' % v
+                elif where == "rule-id":
+                    style = "<style>#L{stroke-width:%s}</style>" % v
+                elif where == "rule-class":
+                    style = "<style>.k{stroke-width:%s}</style>" % v
+                elif where == "parent-attr":
+                    gat = ' stroke-width="%s"' % v
+                else:
+                    gat = ' style="stroke-width:%s"' % v
+                docs.append(("stroke-width=%s@%s%s" % (v, where, tf), HEAD % "" + style + "<g%s%s>" % (gat, tf)
+                             + '<rect id="L" class="k" width="3" height="4" stroke="#336699"%s/><circle id="C" r="2" stroke="#996633"/>' % lat
+                             + "</g></svg>"))
+    return docs
+
+
+def currentcolor_docs():
+    """currentColor in fill and in stroke, the element's own colour coming from every kind of source (or from none), with
+    another colour inherited from the parent or supplied by the caller"""
+    docs = []
+    for prop in ("fill", "stroke", "both"):
+        for own in ("none", "attr", "inline", "rule-id", "rule-class", "rule-type"):
+            for inh in ("parent-attr", "parent-inline", "grand-rule", "caller"):
+                style, gat, lat, ggat = "", "", "", ""
+                if own == "attr":
+                    lat = ' color="#112233"'
+                elif own == "inline":
+                    lat = ' style="color:#112233"'
+                elif own == "rule-id":
+                    style += "#L{color:#112233} "
+                elif own == "rule-class":
+                    style += ".k{color:#112233} "
+                elif own == "rule-type":
+                    style += "rect{color:#112233} "
+                if inh == "parent-attr":
+                    gat = ' color="#445566"'
+                elif inh == "parent-inline":
+                    gat = ' style="color:#445566"'
+                elif inh == "grand-rule":
+                    style += ".gg{color:#445566} "
+                    ggat = ' class="gg"'
+                paint = {"fill": ' fill="currentColor"', "stroke": ' stroke="currentColor"',
+                         "both": ' fill="currentColor" stroke="currentColor"'}[prop]
+                docs.append(("currentColor:%s own=%s inherited=%s" % (prop, own, inh),
+                             HEAD % "" + ("<style>%s</style>" % style if style else "") + "<g%s><g%s>" % (ggat, gat)
+                             + '<rect id="L" class="k" width="3" height="4"%s%s/><circle id="C" r="2"%s/>' % (paint, lat, paint)
+                             + "</g></g></svg>"))
+    return docs
+
+
+class GeneratedColor(Generated):
+    """Generated documents parsed with and without a caller colour"""
+
+    def __init__(self, svg, tier, name, docs):
+        Generated.__init__(self, svg, tier, name, docs)
+        self.p = Product(range(len(docs)), [True, False], [None, "#778899"])
+
+
 def build(tier, seed, svg):
     lists = list_docs()
     if tier != "thorough":
         lists = lists[::3]
     return [Sources(svg, tier), Extras(svg, tier), Generated(svg, tier, "lists", lists),
-            Generated(svg, tier, "opacity", opacity_docs())]
+            Generated(svg, tier, "opacity", opacity_docs()), Generated(svg, tier, "widths", width_docs()),
+            GeneratedColor(svg, tier, "currentcolor", currentcolor_docs())]
 
 
 MATCHERS = {}
